@@ -654,6 +654,7 @@ int tls13_process_client_hello_exts(const uint8_t *exts, size_t extslen,
 {
 	size_t len = 0;
 	int key_share = 0;
+	int supported_versions = 0;
 	*server_exts_len = 0;
 
 	while (extslen) {
@@ -688,6 +689,10 @@ int tls13_process_client_hello_exts(const uint8_t *exts, size_t extslen,
 			break;
 		*/
 		case TLS_extension_supported_versions:
+			if (supported_versions++) {
+				error_print();
+				return -1;
+			}
 			if (tls13_process_client_supported_versions(ext_data, ext_datalen, NULL, &len) != 1
 				|| len > server_exts_maxlen) {
 				error_print();
@@ -696,6 +701,10 @@ int tls13_process_client_hello_exts(const uint8_t *exts, size_t extslen,
 			tls13_process_client_supported_versions(ext_data, ext_datalen, &server_exts, server_exts_len);
 			break;
 		case TLS_extension_key_share:
+			if (key_share) {
+				error_print();
+				return -1;
+			}
 			if (tls13_process_client_key_share(ext_data, ext_datalen, server_ecdhe_key, client_ecdhe_public, &server_exts, server_exts_len) != 1
 				|| len > server_exts_maxlen) {
 				error_print();
